@@ -202,6 +202,8 @@ Variable is_from : ExSyntax.text -> bool.
 Variable to : ExSyntax.text.
 
 Notation rename := (rename is_from to).
+Notation frefs := (frefs is_from).
+Notation brefs := (brefs is_from).
 
 (* a tree with the names of its context references blanked: everything a rename must not touch *)
 Fixpoint erase (e : expr) : expr :=
@@ -217,41 +219,44 @@ Fixpoint erase (e : expr) : expr :=
   | e' => e'
   end.
 
-(* exactly the references EqualFold to `from` are renamed, in place; nothing else changes *)
+(* exactly the free references EqualFold to `from` are renamed, in place; the references bound by a same-named
+   anonymous-function parameter and everything else stay as they were *)
 Theorem rename_exact : forall e,
-  refs (rename e) = map (fun n => if is_from n then to else n) (refs e)
+  frefs (rename e) = map (fun n => if is_from n then to else n) (frefs e)
+  /\ brefs (rename e) = brefs e
   /\ erase (rename e) = erase e.
 Proof.
   induction e as [n|c l IHc|c l IHc IHl|f ps IHf IHps|a b IHb|o a b IHa IHb|a IHa|a IHa|v|l|b|] using expr_ind';
-    cbn [ExRefactor.rename refs erase map]; try (split; reflexivity).
-  - destruct (is_from n); split; reflexivity.
-  - destruct IHc as [H1 H2]. split; [exact H1|]. rewrite H2. reflexivity.
-  - destruct IHc as [H1 H2]. destruct IHl as [H3 H4]. split; [rewrite map_app, H1, H3; reflexivity|].
-    rewrite H2, H4. reflexivity.
-  - destruct IHf as [H1 H2]. split.
-    + rewrite map_app, H1. f_equal.
-      induction IHps as [|x r [Hx _] Hr IH]; [reflexivity|]. cbn [map flat_map]. rewrite map_app, Hx, IH. reflexivity.
-    + rewrite H2. f_equal. rewrite !map_map.
-      induction IHps as [|x r [_ Hx] Hr IH]; [reflexivity|]. cbn [map]. rewrite Hx, IH. reflexivity.
-  - destruct IHb as [H1 H2]. split; [exact H1|]. rewrite H2. reflexivity.
-  - destruct IHa as [H1 H2]. destruct IHb as [H3 H4]. split; [rewrite map_app, H1, H3; reflexivity|].
-    rewrite H2, H4. reflexivity.
-  - destruct IHa as [H1 H2]. split; [exact H1|]. rewrite H2. reflexivity.
-  - destruct IHa as [H1 H2]. split; [exact H1|]. rewrite H2. reflexivity.
+    cbn [ExRefactor.rename ExRefactor.frefs ExRefactor.brefs erase map]; try (repeat split; reflexivity).
+  - destruct (is_from n); repeat split; reflexivity.
+  - destruct IHc as (H1 & H2 & H3). rewrite H3. auto.
+  - destruct IHc as (H1 & H2 & H3). destruct IHl as (H4 & H5 & H6).
+    rewrite map_app, H1, H2, H3, H4, H5, H6. auto.
+  - destruct IHf as (H1 & H2 & H3). rewrite map_app, H1, H2, H3. repeat split.
+    + f_equal. induction IHps as [|x r (Hx & _ & _) Hr IH]; [reflexivity|]. cbn [map flat_map]. rewrite map_app, Hx, IH. reflexivity.
+    + f_equal. induction IHps as [|x r (_ & Hx & _) Hr IH]; [reflexivity|]. cbn [map flat_map]. rewrite Hx, IH. reflexivity.
+    + f_equal. rewrite !map_map.
+      induction IHps as [|x r (_ & _ & Hx) Hr IH]; [reflexivity|]. cbn [map]. rewrite Hx, IH. reflexivity.
+  - destruct (existsb is_from a) eqn:E; cbn [ExRefactor.frefs ExRefactor.brefs erase]; rewrite E; [repeat split; reflexivity|].
+    destruct IHb as (H1 & H2 & H3). rewrite H3. auto.
+  - destruct IHa as (H1 & H2 & H3). destruct IHb as (H4 & H5 & H6).
+    rewrite map_app, H1, H2, H3, H4, H5, H6. auto.
+  - destruct IHa as (H1 & H2 & H3). rewrite H3. auto.
+  - destruct IHa as (H1 & H2 & H3). rewrite H3. auto.
 Qed.
 
-(* when no reference matches, the tree is untouched (and the transformation reports "unchanged") *)
-Theorem rename_no_match : forall e, existsb is_from (refs e) = false -> rename e = e.
+(* when no free reference matches, the tree is untouched (and the transformation reports "unchanged") *)
+Theorem rename_no_match : forall e, existsb is_from (frefs e) = false -> rename e = e.
 Proof.
   induction e as [n|c l IHc|c l IHc IHl|f ps IHf IHps|a b IHb|o a b IHa IHb|a IHa|a IHa|v|l|b|] using expr_ind';
-    cbn [ExRefactor.rename refs]; intros H; try reflexivity.
+    cbn [ExRefactor.rename ExRefactor.frefs]; intros H; try reflexivity.
   - cbn [existsb] in H. rewrite orb_false_r in H. rewrite H. reflexivity.
   - rewrite IHc by exact H. reflexivity.
   - rewrite existsb_app in H. apply orb_false_elim in H. destruct H as [H1 H2]. rewrite IHc, IHl by assumption. reflexivity.
   - rewrite existsb_app in H. apply orb_false_elim in H. destruct H as [H1 H2]. rewrite IHf by assumption. f_equal.
     induction IHps as [|x r Hx Hr IH]; [reflexivity|]. cbn [flat_map] in H2. rewrite existsb_app in H2.
     apply orb_false_elim in H2. destruct H2 as [H3 H4]. cbn [map]. rewrite Hx, IH by assumption. reflexivity.
-  - rewrite IHb by exact H. reflexivity.
+  - destruct (existsb is_from a); [reflexivity|]. rewrite IHb by exact H. reflexivity.
   - rewrite existsb_app in H. apply orb_false_elim in H. destruct H as [H1 H2]. rewrite IHa, IHb by assumption. reflexivity.
   - rewrite IHa by exact H. reflexivity.
   - rewrite IHa by exact H. reflexivity.
